@@ -17,7 +17,7 @@ EXPLANATION = 'credit discipline: count raised before a packaged task exists / i
 def build(ctx):
     units = c04.build(ctx)
     keep = ('packageTask (packaged body)', 'packageTaskNoIncrement (packaged body)', 'TaskSet::schedule', 'ConcurrentTaskSet::schedule', 'ConcurrentTaskSet::schedulePlaced',
-            'TaskSetBase::scheduleBulkImpl', 'TaskSetBase::scheduleBulkImplPlaced')
+            'TaskSetBase::scheduleBulkImpl', 'TaskSetBase::scheduleBulkImplPlaced', 'TaskSetBase::scheduleBulkImplForceQueue')
     units = [u for u in units if u.name in keep]
     for u in units:
         u.replay = None
